@@ -225,6 +225,13 @@ Definition fn_arities (f : fn) : list nat :=
   | _ => [1]
   end%nat.
 
+(* the Spec's inventory of functions, and the function a name denotes (None: the Spec knows no such
+   function; C01_function_table_complete shows that the table regenerated from soyhtml.Funcs holds
+   no such name) *)
+Definition all_fns : list fn :=
+  [FIsNonnull; FLength; FKeys; FAugmentMap; FRound; FFloor; FCeiling; FMin; FMax; FRandomInt; FStrContains; FRange; FHasData].
+Definition fn_of_name (name : bstr) : option fn := find (fun f => bstr_eqb name (fn_name f)) all_fns.
+
 Inductive fresult := RValue (v : value) | RList (l : list value) | RMap (m : list (bstr * value)).
 
 (* smaller / larger of two finite floats (equal ones: the first); NaN and infinities are outside the model *)
